@@ -23,8 +23,7 @@ Viol(name, holds) ==
 \* labels.Validate as containerd itself answered for each produced label, and the same rule on the recorded lengths
 MonValidateOK == \A k \in DOMAIN Ev.wl : Ev.wl[k].valid /\ Ev.wl[k].klen + Ev.wl[k].len <= MaxSize
 \* the prefetch size as fs.Mount would parse it from the untampered labels
-\* (not claimed for a prefetch key that the extra handler kept from the manifest's descriptor - see KeptKeys)
-MonPrefetchConsumed == (C.tam = <<>> /\ PrefetchKey \notin KeptKeys(C.man, C.t, C.fl)) => Ev.pfread = C.pf
+MonPrefetchConsumed == (C.tam = <<>>) => Ev.pfread = C.pf
 
 MonNext ==
     /\ l <= Len(TraceLog)
